@@ -6,6 +6,7 @@ import re
 
 from .. import jmodel as J
 from ..pymodel import package
+from ..core import norm_text
 
 EXPLANATION = (
     "R1 every TOML key path read by RenderCommand.handle / ExtendCommand.handle exists in NAUNET_CONFIG_DEFAULT and is assigned by "
@@ -20,7 +21,11 @@ EXPLANATION = (
     "command installs Species' global tables (replacement, elements, pseudo-elements) before it constructs any Species; R9 every user setting "
     "BaseConfiguration.content writes is the stored field whole: the field itself, or a comprehension/helper that copies every entry (keys as "
     "strings) -- no filter drops entries on the way into the file; R12 every configured value the render command reads is handed to the API "
-    "parameter it stands for (Network(..) keyword, Species class table, chemistrydata.update_*, TemplateLoader(..)).")
+    "parameter it stands for (Network(..) keyword, Species class table, chemistrydata.update_*, TemplateLoader(..)); R13 the input stage "
+    "BaseConfiguration.__init__ stores every setting it is handed whole (the argument, a copy, an empty default) -- no filter between the "
+    "command and the writer; R7 also: the dependency list of an ODE-modifier term keeps repeated names (no set / dict.fromkeys in the option "
+    "parser or its helpers).  Verdicts: a mismatch counts as a VIOLATION only when both sides were read completely; a table handed whole to "
+    "a call that is not followed, a helper of another module, arguments passed on with * / ** answer UNRECOGNISED.")
 ASSUMPTIONS = [
     "the general case of option values containing separator characters, quoting through cleo's string input, and equality of the rendered sources with the API path are not decided",
 ]
@@ -71,8 +76,76 @@ def _in_order(fn):
 
 
 def _content_writer(pkg):
-    """BaseConfiguration.content with the _fill_* style helpers it may have been split into put back"""
-    return pkg.expanded("BaseConfiguration", "content")
+    """BaseConfiguration.content with the _fill_* style helpers it may have been split into put back; a table of entries computed from a
+    literal table of the function (`{f"num_of_{k}": n for k, n in sizes.items()}`) written out as the display it equals, and the loops
+    over it unrolled -- every `table[key] = value` of the writer then stands in the function with its literal key"""
+    cache = pkg.__dict__.setdefault("_content_writer", {})
+    if "fn" in cache:
+        return cache["fn"]
+    import copy
+    fn = pkg.expanded("BaseConfiguration", "content")
+    try:
+        from ..normalize import unroll_static_loops, _Subst, _ConstFStr
+        stores = {}
+        for x in ast.walk(fn):
+            if isinstance(x, ast.Name) and isinstance(x.ctx, (ast.Store, ast.Del)):
+                stores[x.id] = stores.get(x.id, 0) + 1
+        lits = {st.targets[0].id: st.value for st in fn.body if isinstance(st, ast.Assign) and len(st.targets) == 1 and isinstance(st.targets[0], ast.Name)
+                and stores.get(st.targets[0].id) == 1 and isinstance(st.value, ast.Dict) and st.value.keys and all(isinstance(k, ast.Constant) for k in st.value.keys)}
+        changed = False
+        new_body = []
+        for st in fn.body:
+            v = st.value if isinstance(st, ast.Assign) and len(st.targets) == 1 and isinstance(st.targets[0], ast.Name) else None
+            if isinstance(v, ast.DictComp) and len(v.generators) == 1 and not v.generators[0].ifs and stores.get(st.targets[0].id) == 1:
+                g = v.generators[0]
+                it = g.iter
+                if isinstance(it, ast.Call) and isinstance(it.func, ast.Attribute) and it.func.attr == "items" and not it.args and isinstance(it.func.value, ast.Name) \
+                        and it.func.value.id in lits and isinstance(g.target, ast.Tuple) and len(g.target.elts) == 2 and all(isinstance(e, ast.Name) for e in g.target.elts):
+                    src = lits[it.func.value.id]
+                    kn, vn = g.target.elts[0].id, g.target.elts[1].id
+                    keys, vals = [], []
+                    for k_, v_ in zip(src.keys, src.values):
+                        m = {kn: k_, vn: v_}
+                        keys.append(_ConstFStr().visit(_Subst(m).visit(copy.deepcopy(v.key))))
+                        vals.append(_Subst(m).visit(copy.deepcopy(v.value)))
+                    if all(isinstance(k_, ast.Constant) for k_ in keys):
+                        st = ast.copy_location(ast.Assign(targets=[ast.Name(id=st.targets[0].id, ctx=ast.Store())], value=ast.Dict(keys=keys, values=vals)), st)
+                        changed = True
+            new_body.append(st)
+        if changed:
+            fn = copy.deepcopy(pkg.expanded("BaseConfiguration", "content"))
+            fn.body = [copy.deepcopy(x) for x in new_body]
+            ast.fix_missing_locations(fn)
+            unroll_static_loops(fn)
+    except (RecursionError, ImportError, AttributeError, TypeError):
+        fn = pkg.expanded("BaseConfiguration", "content")
+    cache["fn"] = fn
+    return fn
+
+
+def _render_handle(pkg):
+    """RenderCommand.handle as the rules read it: helpers of the class / the module put back, one-expression module helpers replaced by
+    what they return where they stand inside an expression (`Network(rate_modifier=_with_int_keys(t))`), and a keyword table handed on
+    with `**` written out as the keywords it holds"""
+    cache = pkg.__dict__.setdefault("_render_handle", {})
+    if "fn" not in cache:
+        import copy
+        from ..normalize import expand_kwargs_dicts, _ExprInliner
+        fn = copy.deepcopy(pkg.expanded("RenderCommand", "handle", keep=("option", "confirm", "call", "line", "argument")))
+
+        def helper(call):
+            f = call.func
+            if isinstance(f, ast.Name) and (RENDER, f.id) in pkg.functions:
+                return pkg.functions[(RENDER, f.id)], None
+            return None
+        try:
+            fn.body = [_ExprInliner(helper, None).visit(st) for st in fn.body]
+            ast.fix_missing_locations(fn)
+            expand_kwargs_dicts(fn)
+        except RecursionError:
+            pass
+        cache["fn"] = fn
+    return cache["fn"]
 
 
 def _init_handle(pkg):
@@ -213,6 +286,23 @@ def _text_consts(fl, v, seen=None):
         out |= _text_consts(fl, v[1], seen) | _text_consts(fl, v[2], seen)
     elif k == "comp":
         out |= _text_consts(fl, v[2], seen)
+        # the elements of a list of text pieces the comprehension runs over (`"".join(f"{p};" for p in pieces)`)
+        for g in v[3]:
+            if isinstance(g, tuple) and len(g) == 3 and isinstance(g[1], tuple) and g[1] and g[1][0] in ("acc", "carried", "list", "tuple", "comp", "appended", "copy"):
+                out |= _text_consts(fl, g[1], seen)
+    elif k == "attr" and v[2] == "format" and v[1][0] == "const" and isinstance(v[1][1], str):
+        out.add(v[1][1])                      # the bound method "{}: {}".format handed to map / starmap
+    elif k == "meth" and v[2] == "format":
+        out |= _text_consts(fl, v[1], seen)
+        for a in v[3]:
+            out |= _text_consts(fl, a, seen)
+    elif k == "call" and (v[1] in (("global", "map"), ("global", "starmap"), ("global", "str"), ("global", "format"), ("global", "list"), ("global", "tuple"))
+                          or (v[1][0] == "attr" and v[1][1] == ("global", "itertools") and v[1][2] == "starmap")):
+        for a in v[2]:
+            out |= _text_consts(fl, a, seen)
+    elif k == "meth" and v[1] == ("global", "itertools") and v[2] == "starmap":
+        for a in v[3]:
+            out |= _text_consts(fl, a, seen)
     elif k in ("list", "tuple"):
         for e in v[1]:
             out |= _text_consts(fl, e, seen)
@@ -328,6 +418,31 @@ def _alias_paths(fn, root_names, derive=False):
     return reads, writes, var
 
 
+def _escaped_tables(fn, var):
+    """configuration tables (paths held by aliasing locals / subscripts of them) that are handed WHOLE to a call: whatever is read or
+    written below such a path happens out of this rule's sight"""
+    out = set()
+
+    def path_of(e):
+        if isinstance(e, ast.Name) and e.id in var:
+            return var[e.id]
+        if isinstance(e, ast.Subscript) and isinstance(e.slice, ast.Constant) and isinstance(e.slice.value, str):
+            b = path_of(e.value)
+            if b is not None:
+                return f"{b}.{e.slice.value}" if b else e.slice.value
+        return None
+    for c in ast.walk(fn):
+        if isinstance(c, ast.Call):
+            f = ast.unparse(c.func)
+            if f.split(".")[-1] in ("dumps", "len", "print", "get", "write", "table", "isinstance"):
+                continue
+            for a in list(c.args) + [k.value for k in c.keywords]:
+                p_ = path_of(a)
+                if p_ is not None:
+                    out.add(p_)
+    return out
+
+
 def check(ctx):
     pkg = package(ctx.tree)
     _r1(ctx, pkg)
@@ -341,6 +456,7 @@ def check(ctx):
     render_reads_only(ctx, pkg, "R10")
     _r11(ctx, pkg)
     _r12(ctx, pkg)
+    _r13(ctx, pkg)
 
 
 # ------------------------------------------------------------------ R12  every configured value reaches the API parameter it stands for
@@ -377,7 +493,7 @@ NEUTRAL_CALLS = {"Species", "int", "str", "float", "dict", "list", "set", "tuple
 
 
 def _r12(ctx, pkg):
-    rfn = pkg.method("RenderCommand", "handle")
+    rfn = _render_handle(pkg)
     root = _toml_root(rfn)
     taint = {root: {""}}          # local -> set of configuration paths its value derives from
 
@@ -479,6 +595,7 @@ def _r12(ctx, pkg):
                 if isinstance(e, ast.Name):
                     taint[e.id] = set(ps)
     n_ok = 0
+    esc12 = _escaped_tables(rfn, _alias_paths(rfn, {root: ""})[2])
     for path, sinks in sorted(SINKS.items()):
         got = reached.get(path, set())
         for callee, slot in sinks:
@@ -490,6 +607,8 @@ def _r12(ctx, pkg):
                 ctx.unrec("R12", key, (RENDER, rfn.lineno), f"cannot follow `{path}` from the parsed configuration (the key is not read by subscripting a local of handle())")
             elif strays.get(path):
                 ctx.unrec("R12", key, (RENDER, rfn.lineno), f"`{path}` is handed to {strays[path][0]}, which this rule does not follow")
+            elif any(path.startswith(q + ".") or q == "" for q in esc12):
+                ctx.unrec("R12", key, (RENDER, rfn.lineno), f"a table holding `{path}` is handed whole to a call this rule does not follow ({sorted(q for q in esc12 if path.startswith(q + '.') or q == '')[:2]})")
             else:
                 ctx.bad("R12", key, (RENDER, rfn.lineno),
                         f"the configured `{path}` never reaches {callee}({slot if slot != '=' else 'class table'}): the command-line rendering uses something else than what the "
@@ -606,10 +725,108 @@ def _whole(v, mod, depth=0):
 USER_PATHS = ("chemistry.", "ODEsolver.", "general.name", "general.description", "general.loads")
 
 
+def carries_whole(v: ast.AST, depth: int = 0):
+    """-> ('ok' | 'filtered' | 'unknown', detail) for an expression that stores / hands on a table or list it was given (X a name or an
+    attribute chain):  X, X.copy(), list(X) / dict(X) / tuple(X) / copy.copy(X) / copy.deepcopy(X), [*X] / {**X}, `<whole> if X else <empty>`,
+    `X or <empty>`, a comprehension that copies every entry (keys through int / str) are WHOLE;  a comprehension with a filter, filter(..),
+    a slice, set(..) / dict.fromkeys(..) / sorted(set(..)) DROP entries -- positive evidence;  anything else is not read here."""
+    empty = lambda x: (isinstance(x, (ast.List, ast.Tuple, ast.Dict, ast.Set)) and not (x.elts if not isinstance(x, ast.Dict) else x.keys)) or \
+        (isinstance(x, ast.Call) and isinstance(x.func, ast.Name) and x.func.id in ("list", "dict", "tuple") and not x.args and not x.keywords) or \
+        (isinstance(x, ast.Constant) and x.value in (None, ""))
+    if depth > 4:
+        return "unknown", "too deep"
+    if isinstance(v, (ast.Name, ast.Attribute)):
+        return "ok", "the value itself"
+    if isinstance(v, ast.IfExp):
+        arms = [carries_whole(x, depth + 1) for x in (v.body, v.orelse) if not empty(x)]
+        for st in ("filtered", "unknown"):
+            hit = [a for a in arms if a[0] == st]
+            if hit:
+                return hit[0]
+        return "ok", "whole on every arm"
+    if isinstance(v, ast.BoolOp) and isinstance(v.op, ast.Or):
+        arms = [carries_whole(x, depth + 1) for x in v.values if not empty(x)]
+        for st in ("filtered", "unknown"):
+            hit = [a for a in arms if a[0] == st]
+            if hit:
+                return hit[0]
+        return "ok", "the value or an empty default"
+    if isinstance(v, ast.Call):
+        f = ast.unparse(v.func)
+        if isinstance(v.func, ast.Attribute) and v.func.attr == "copy" and not v.args and not v.keywords:
+            return carries_whole(v.func.value, depth + 1)
+        if f in ("dict", "list", "tuple", "copy.deepcopy", "deepcopy", "copy.copy", "copy") and len(v.args) == 1 and not v.keywords:
+            return carries_whole(v.args[0], depth + 1)
+        if f in ("set", "frozenset", "filter") or f.endswith("fromkeys"):
+            return "filtered", f"`{ast.unparse(v)[:70]}` drops repeated / falsy entries"
+        if f == "sorted" and v.args and isinstance(v.args[0], ast.Call) and ast.unparse(v.args[0].func) in ("set", "frozenset"):
+            return "filtered", f"`{ast.unparse(v)[:70]}` drops repeated entries"
+        return "unknown", ast.unparse(v)[:70]
+    if isinstance(v, (ast.List, ast.Tuple)) and len(v.elts) == 1 and isinstance(v.elts[0], ast.Starred):
+        return carries_whole(v.elts[0].value, depth + 1)
+    if isinstance(v, ast.Dict) and len(v.keys) == 1 and v.keys[0] is None:
+        return carries_whole(v.values[0], depth + 1)
+    if isinstance(v, ast.Subscript) and isinstance(v.slice, ast.Slice):
+        if v.slice.lower is None and v.slice.upper is None and v.slice.step is None:
+            return carries_whole(v.value, depth + 1)
+        return "filtered", f"the slice `{ast.unparse(v)[:60]}` keeps part of the entries"
+    if isinstance(v, (ast.DictComp, ast.ListComp)):
+        if len(v.generators) != 1:
+            return "unknown", "nested comprehension"
+        g = v.generators[0]
+        if g.ifs:
+            return "filtered", f"entries are dropped by `if {ast.unparse(g.ifs[0])[:60]}`"
+        it = g.iter
+        if isinstance(it, ast.Call) and isinstance(it.func, ast.Attribute) and it.func.attr == "items" and not it.args:
+            it = it.func.value
+        st = carries_whole(it, depth + 1)
+        if st[0] != "ok":
+            return st
+        names = [n.id for n in ast.walk(g.target) if isinstance(n, ast.Name)]
+        if not names:
+            return "unknown", "comprehension target"
+        if isinstance(v, ast.DictComp):
+            kk = ast.unparse(v.key)
+            if kk not in (names[0], f"str({names[0]})", f"int({names[0]})") or not (isinstance(v.value, ast.Name) and v.value.id == names[-1]):
+                return "unknown", f"entries are rewritten: {kk}: {ast.unparse(v.value)[:40]}"
+        elif not (isinstance(v.elt, ast.Name) and v.elt.id == names[0]):
+            return "unknown", f"elements are rewritten: {ast.unparse(v.elt)[:40]}"
+        return "ok", "every entry is copied"
+    return "unknown", ast.unparse(v)[:70]
+
+
+def _r13(ctx, pkg):
+    """BaseConfiguration.__init__ is the input stage of the writer: every setting it is handed is stored WHOLE in the field content()
+    writes (the argument itself, a copy, an empty default when nothing was given).  A field computed by filtering the argument
+    (`[s for s in required_species if s not in self._allowedspecies]`) writes less than what was configured."""
+    init = pkg.cls("BaseConfiguration").methods["__init__"]
+    params = {a.arg for a in init.args.args if a.arg != "self"}
+    n = 0
+    for st in init.body:
+        if not (isinstance(st, ast.Assign) and len(st.targets) == 1 and isinstance(st.targets[0], ast.Attribute) and isinstance(st.targets[0].value, ast.Name)
+                and st.targets[0].value.id == "self"):
+            continue
+        used = {x.id for x in ast.walk(st.value) if isinstance(x, ast.Name) and x.id in params}
+        if not used:
+            continue
+        n += 1
+        key = f"BaseConfiguration.__init__: self.{st.targets[0].attr}"
+        state, why = carries_whole(st.value)
+        if state == "unknown":
+            ctx.unrec("R13", key, (CONF, st.lineno), f"cannot tell whether the whole setting is stored: {why}")
+        else:
+            ctx.check(state == "ok", "R13", key, (CONF, st.lineno), why if state == "ok" else
+                      f"`self.{st.targets[0].attr}` is not the setting it was given but a filtered version of it ({why}): entries the user configured never reach "
+                      "naunet_config.toml, and `naunet render` builds another network than the API call with the same arguments",
+                      expected=f"{sorted(used)[0]}.copy() if {sorted(used)[0]} else <empty>", found=ast.unparse(st.value)[:120])
+    ctx.floor("R13", "settings stored by BaseConfiguration.__init__", n, 20, (CONF, init.lineno))
+
+
 def _r9(ctx, pkg):
     mod = pkg.modules[CONF]
     cfn = _content_writer(pkg)
     n = 0
+    flow = None
     var = {_toml_root(cfn): ""}
 
     def path_of(e):
@@ -638,6 +855,22 @@ def _r9(ctx, pkg):
         n += 1
         state, why = _whole(st.value, mod)
         if state == "unknown":
+            # by value (sa.valueflow): locals and conditions on constants resolved -- `v = self._x; t[k] = v if conv is None else conv(v)` with
+            # conv bound to None is the stored field itself
+            if flow is None:
+                from ..valueflow import Flow
+                try:
+                    flow = Flow(cfn, CONF)
+                except Exception:
+                    flow = False
+            if flow:
+                from ..valueflow import simp, peval
+                f_ = next((f for f in flow.facts if f.node is st and f.kind == "store" and f.value is not None), None)
+                if f_ is not None:
+                    v_ = simp(peval(f_.value, {}))
+                    if v_[0] == "attr" and v_[1] == ("param", "self"):
+                        state, why = "ok", "the stored field itself (through locals)"
+        if state == "unknown":
             ctx.unrec("R9", f"write {p}:whole", (CONF, st.lineno), f"cannot tell whether the whole value reaches the file: {why}")
         else:
             ctx.check(state == "ok", "R9", f"write {p}:whole", (CONF, st.lineno), why if state == "ok" else
@@ -658,12 +891,16 @@ def _r1(ctx, pkg):
         return
     schema = _toml_paths(default)
     cfn = _content_writer(pkg)
-    _, writes, _ = _alias_paths(cfn, {_toml_root(cfn): ""})
-    rfn = pkg.method("RenderCommand", "handle")
+    _, writes, wvar = _alias_paths(cfn, {_toml_root(cfn): ""})
+    rfn = _render_handle(pkg)
     efn = pkg.method("ExtendCommand", "handle")
     ctx.saw(RENDER, "RenderCommand.handle"), ctx.saw(EXTEND, "ExtendCommand.handle")
-    reads, rwrites, _ = _alias_paths(rfn, {_toml_root(rfn): ""})
+    reads, rwrites, rvar = _alias_paths(rfn, {_toml_root(rfn): ""})
     ereads, _, _ = _alias_paths(efn, {_toml_root(efn): ""})
+    # a side is READ COMPLETELY when no table of the document is handed whole to something this rule does not follow and the number
+    # of paths found reaches the floor; "the other side has no such path" is evidence only then
+    w_esc, r_esc = _escaped_tables(cfn, wvar), _escaped_tables(rfn, rvar)
+    hidden = lambda p_, esc: any(p_ == q or p_.startswith(q + ".") or q == "" for q in esc)
     allreads = dict(reads)
     allreads.update(ereads)
     tables = {p for p in schema if any(q.startswith(p + ".") for q in schema)}
@@ -672,6 +909,9 @@ def _r1(ctx, pkg):
         file = RENDER if p in reads else EXTEND
         in_schema = p in schema
         assigned = p in leaf_writes or any(w.startswith(p + ".") for w in leaf_writes) or any(p.startswith(w + ".") for w in leaf_writes if w not in tables or w in leaf_writes)
+        if in_schema and not assigned and (hidden(p, w_esc) or len(writes) < 30):
+            ctx.unrec("R1", f"read {p}", (file, line), f"cannot tell whether the writer assigns `{p}`: the writer is not read completely (tables handed on: {sorted(w_esc)[:3]}, {len(writes)} paths found)")
+            continue
         ctx.check(in_schema and assigned, "R1", f"read {p}", (file, line),
                   f"`{p}` is in the schema and assigned by the writer" if in_schema and assigned else
                   f"the reader asks for `{p}`, which " + ("the schema does not contain" if not in_schema else "BaseConfiguration.content never assigns"),
@@ -682,6 +922,9 @@ def _r1(ctx, pkg):
         if p in tables and not p.startswith("summary"):
             continue
         used = p in allreads or any(r.startswith(p + ".") for r in allreads) or p in INFORMATIONAL or p.startswith("summary.")
+        if not used and (hidden(p, r_esc) or len(allreads) < 25):
+            ctx.unrec("R1", f"written path {p} is read", (CONF, line), f"cannot tell whether a command reads `{p}`: the reader is not read completely (tables handed on: {sorted(r_esc)[:3]}, {len(allreads)} paths found)")
+            continue
         ctx.check(used, "R1", f"written path {p} is read", (CONF, line),
                   "read back by a command (or informational by table)" if used else f"`{p}` is written but no command reads it: the setting is lost on the way to the renderer")
     ctx.floor("R1", "key paths read", len(allreads), 25)
@@ -727,7 +970,10 @@ def _r2(ctx, pkg):
         unknown = [k.arg for k in c.keywords if k.arg not in params]
         missing = [p for p in params if p not in given]
         ctx.check(not unknown, "R2", "InitCommand passes only known keywords", (INIT, c.lineno), "every keyword is a parameter of BaseConfiguration", found=str(unknown))
-        ctx.check(not missing, "R2", "InitCommand passes every setting", (INIT, c.lineno), f"all {len(params)} settings of BaseConfiguration are supplied by the init command", found=f"missing {missing}")
+        if missing and (any(k.arg is None for k in c.keywords) or any(isinstance(a, ast.Starred) for a in c.args)):
+            ctx.unrec("R2", "InitCommand passes every setting", (INIT, c.lineno), f"arguments are handed on with * / **: cannot tell whether {missing} are supplied")
+        else:
+            ctx.check(not missing, "R2", "InitCommand passes every setting", (INIT, c.lineno), f"all {len(params)} settings of BaseConfiguration are supplied by the init command", found=f"missing {missing}")
         # each keyword receives the local of the matching option (name agreement, e.g. required_species=extra_species)
         org = _option_origins(h)
         for k in c.keywords:
@@ -738,6 +984,9 @@ def _r2(ctx, pkg):
             if exp is None:
                 ctx.unrec("R2", f"InitCommand:{k.arg}=", (INIT, c.lineno), f"no option is on record for the setting `{k.arg}`")
             else:
+                if got is None:
+                    ctx.unrec("R2", f"InitCommand:{k.arg}=", (INIT, c.lineno), f"cannot tell which option `{ast.unparse(k.value)[:60]}` derives from")
+                    continue
                 ctx.check(got == exp, "R2", f"InitCommand:{k.arg}=", (INIT, c.lineno), f"`{k.arg}` receives the value parsed from --{exp}",
                           expected=f"a local derived from self.option({exp!r})", found=f"{ast.unparse(k.value)} (from --{got})")
     # species_kwargs keys
@@ -751,17 +1000,24 @@ def _r2(ctx, pkg):
             looked.append((n.slice.value, n.lineno))
     stored = _kwargs_dict(h, "BaseConfiguration", "species_kwargs")
     sp_params = {a.arg for a in pkg.method("Species", "__init__").args.args} - {"self", "name"}
-    rh = pkg.method("RenderCommand", "handle")
+    rh = _render_handle(pkg)
     rstored = _kwargs_dict(rh, "Network", "species_kwargs")
     ctx.floor("R2", "species_kwargs lookups", len(looked), 3, (CONF, cfn.lineno))
     for key, line in looked:
         ok = key in stored and key in sp_params
+        if not ok and not stored:
+            ctx.unrec("R2", f"species_kwargs[{key!r}]", (CONF, line), "the keys the init command stores in species_kwargs were not found (not a dict display bound to the keyword)")
+            continue
         ctx.check(ok, "R2", f"species_kwargs[{key!r}]", (CONF, line),
                   f"`{key}` is stored by the init command and is a parameter of Species" if ok else
                   f"the writer looks up species_kwargs[{key!r}], which the init command never stores (keys: {sorted(stored)}): the configured value is ignored and the default written",
                   expected=f"one of {sorted(stored & sp_params)}", found=key)
-    ctx.check(stored == sp_params == rstored, "R2", "species_kwargs keys", (INIT, h.lineno), "init.py, render.py and Species.__init__ agree on the symbol keywords",
-              found=f"init {sorted(stored)}, render {sorted(rstored)}, Species {sorted(sp_params)}")
+    if not stored or not rstored or not sp_params:
+        # a side whose key table was not found (built another way than a dict display bound to the keyword) says nothing about agreement
+        ctx.unrec("R2", "species_kwargs keys", (INIT, h.lineno), f"the symbol keywords of one side were not found: init {sorted(stored)}, render {sorted(rstored)}, Species {sorted(sp_params)}")
+    else:
+        ctx.check(stored == sp_params == rstored, "R2", "species_kwargs keys", (INIT, h.lineno), "init.py, render.py and Species.__init__ agree on the symbol keywords",
+                  found=f"init {sorted(stored)}, render {sorted(rstored)}, Species {sorted(sp_params)}")
 
 
 def _r3(ctx, pkg):
@@ -790,25 +1046,101 @@ def _r3(ctx, pkg):
     used -= {"select", "dry", "path"}
     ctx.floor("R3", "options composed by the example command", len(used), 20)
     for o in sorted(used):
-        ctx.check(o in decl, "R3", f"--{o}", (EXAMPLE, h.lineno), f"--{o} is an option of `naunet init`")
+        if not decl:
+            ctx.unrec("R3", f"--{o}", (EXAMPLE, h.lineno), "the option declarations of `naunet init` were not found (not a list of option(..) calls)")
+        else:
+            ctx.check(o in decl, "R3", f"--{o}", (EXAMPLE, h.lineno), f"--{o} is an option of `naunet init`")
 
 
-def _seps_reader(h, opt, org):
-    """separators at which the locals derived from option `opt` are split in InitCommand.handle"""
-    seps = set()
+_READER_METHODS = {"split", "rsplit", "strip", "lstrip", "rstrip", "replace", "items", "keys", "values", "get", "append", "extend", "setdefault", "update", "lower", "upper",
+                   "option", "validate", "from_iterable", "startswith", "endswith", "copy"}
+_READER_FUNCS = {"float", "int", "str", "dict", "list", "tuple", "len", "bool", "zip", "enumerate", "takewhile", "chain", "map", "filter", "iter", "next", "sorted", "reversed", "range",
+                 "isinstance", "ValueError", "print"}
+
+
+def _option_scopes(pkg, h, opt):
+    """-> (nodes, understood): the expressions / statements of InitCommand.handle in which the text of option `opt` is taken apart (the
+    assigned values and loops that derive from that option only) together with the bodies of the helper methods of the class those call
+    with such text (a helper left in place by the expansion: one called inside a comprehension, a generator, ..);  `understood`: every
+    call in them is a string / container operation of known meaning -- nothing takes the text apart out of sight (a regular
+    expression, partition, a function of another module)"""
     at = _origins_at(h)
+    nodes = []
     for n in _in_order(h):
         if isinstance(n, ast.Assign) and at.get(id(n)) == opt:
-            scope = [n.value]
+            nodes.append(n)
         elif isinstance(n, ast.For) and at.get(id(n)) == opt:
-            scope = [n]
-        else:
-            continue
-        for sc in scope:
-            for c in ast.walk(sc):
-                if isinstance(c, ast.Call) and isinstance(c.func, ast.Attribute) and c.func.attr == "split" and c.args and isinstance(c.args[0], ast.Constant):
-                    seps.add(c.args[0].value)
+            nodes.append(n)
+    understood = True
+    seen = set()
+    todo = list(nodes)
+    while todo:
+        sc = todo.pop()
+        for c in ast.walk(sc):
+            if not isinstance(c, ast.Call):
+                continue
+            f = c.func
+            if isinstance(f, ast.Attribute) and isinstance(f.value, ast.Name) and f.value.id in ("self", "cls") and f.attr not in ("option", "validate"):
+                callee = pkg.resolve("InitCommand", f.attr)[1] if "InitCommand" in pkg.classes else None
+                if callee is None:
+                    understood = False
+                elif id(callee) not in seen and len(seen) < 8:
+                    seen.add(id(callee))
+                    nodes.append(callee)
+                    todo.append(callee)
+            elif isinstance(f, ast.Attribute):
+                if f.attr not in _READER_METHODS:
+                    understood = False
+            elif isinstance(f, ast.Name):
+                if f.id not in _READER_FUNCS:
+                    understood = False
+            else:
+                understood = False
+    return nodes, understood
+
+
+def _seps_reader(h, opt, org, pkg=None):
+    """separators at which the text of option `opt` is split in InitCommand.handle (and in the helpers it hands such text to)"""
+    seps = set()
+    if pkg is not None:
+        scopes = _option_scopes(pkg, h, opt)[0]
+    else:
+        at = _origins_at(h)
+        scopes = [n for n in _in_order(h) if isinstance(n, (ast.Assign, ast.For)) and at.get(id(n)) == opt]
+    for sc in scopes:
+        for c in ast.walk(sc.value if isinstance(sc, ast.Assign) else sc):
+            if isinstance(c, ast.Call) and isinstance(c.func, ast.Attribute) and c.func.attr in ("split", "rsplit") and c.args and isinstance(c.args[0], ast.Constant):
+                seps.add(c.args[0].value)
     return seps
+
+
+_WRITER_CALLS = {"map", "starmap", "str", "format", "zip", "repr", "sorted", "list", "tuple", "enumerate", "import_module", "len", "int"}
+_WRITER_METHODS = {"items", "keys", "values", "format", "join", "strip", "get", "import_module", "option", "split", "starmap", "choice"}
+
+
+def _writer_understood(fl, v, seen=None) -> bool:
+    """is the composed option value built from text pieces and data by string operations of known meaning only (nothing is hidden in a
+    call this rule cannot read)?  Lists grown by appends / strings grown by += are followed to what is appended."""
+    from ..valueflow import simp, walk
+    seen = seen if seen is not None else set()
+    for x in walk(v):
+        if not isinstance(x, tuple) or not x or not isinstance(x[0], str):
+            continue
+        if x[0] == "unknown" or x[0] == "lambda":
+            return False
+        if x[0] == "call" and not ((x[1][0] == "global" and x[1][1] in _WRITER_CALLS) or (x[1][0] == "attr" and x[1][2] in _WRITER_CALLS)):
+            return False
+        if x[0] == "meth" and x[2] not in _WRITER_METHODS:
+            return False
+        if x[0] in ("acc", "carried") and len(x) >= 2 and isinstance(x[1], str) and x[1] not in seen:
+            seen.add(x[1])
+            for f in fl.facts:
+                if f.target == x[1] and f.value is not None and not _writer_understood(fl, simp(f.value), seen):
+                    return False
+            for a in fl.assigns.get(x[1], []):
+                if not _writer_understood(fl, simp(a[0]), seen):
+                    return False
+    return True
 
 
 OPTION_SEPS = {"element-replacement": {",", ":"}, "shielding": {",", ":"}, "binding": {",", "="}, "yield": {",", "="}, "rate-modifier": {",", ":"}, "ode-modifier": {";", ":", ","}}
@@ -822,21 +1154,41 @@ def _r4_r6_r7(ctx, pkg):
     org = _option_origins(ih)
     for opt, exp in OPTION_SEPS.items():
         ws = {c for t in (_text_consts(efl, wv[opt]) if opt in wv else ()) for c in t if c in ":;,="}
-        rs = _seps_reader(ih, opt, org)
-        ctx.check(ws == rs == exp, "R4", f"--{opt} separators", (INIT, ih.lineno),
-                  f"the example command joins with {sorted(exp)} and the init command splits at the same characters" if ws == rs == exp else
-                  f"separator mismatch for --{opt}: written with {sorted(ws)}, split at {sorted(rs)}", expected=str(sorted(exp)), found=f"writer {sorted(ws)}, reader {sorted(rs)}")
+        rs = _seps_reader(ih, opt, org, pkg)
+        good = ws == rs == exp
+        # understood and wrong: BOTH sides are read completely (every piece of the composed text reconstructed, the option text taken apart
+        # by known string operations only) and they use different characters; a side that goes through something this rule cannot read
+        # (a helper of another module, a regular expression, ..) is not evidence of a mismatch
+        sure = opt in wv and _writer_understood(efl, wv[opt]) and _option_scopes(pkg, ih, opt)[1] and bool(_option_scopes(pkg, ih, opt)[0])
+        if good:
+            ctx.ok("R4", f"--{opt} separators", (INIT, ih.lineno), f"the example command joins with {sorted(exp)} and the init command splits at the same characters")
+        elif sure:
+            ctx.bad("R4", f"--{opt} separators", (INIT, ih.lineno), f"separator mismatch for --{opt}: written with {sorted(ws)}, split at {sorted(rs)}", expected=str(sorted(exp)), found=f"writer {sorted(ws)}, reader {sorted(rs)}")
+        else:
+            ctx.unrec("R4", f"--{opt} separators", (INIT, ih.lineno), f"cannot read both sides of --{opt} completely: writer pieces {sorted(ws)}, reader splits {sorted(rs)} (expected {sorted(exp)} on both)")
     # R6 lossy split of free text (rate / ODE modifier expressions)
     n6 = 0
     at = _origins_at(ih)
     for opt6 in ("ode-modifier", "rate-modifier"):
         # statements that split pieces of this option and index the result by constants
-        for n in _in_order(ih):
-            if isinstance(n, ast.Assign) and isinstance(n.targets[0], ast.Name) and at.get(id(n)) == opt6:
+        # (the statements of handle() that derive from this option, and those of the helpers such text is handed to)
+        cands = []
+        for sc in _option_scopes(pkg, ih, opt6)[0]:
+            if isinstance(sc, ast.Assign):
+                cands.append(sc)
+            elif isinstance(sc, (ast.FunctionDef, ast.AsyncFunctionDef)):
+                cands += [x for x in ast.walk(sc) if (isinstance(x, ast.Assign) and isinstance(x.targets[0], ast.Name)) or (isinstance(x, ast.Return) and x.value is not None)]
+        for n in cands:
+            if isinstance(n, ast.Return) or isinstance(n.targets[0], ast.Name):
                 for c in ast.walk(n.value):
                     if isinstance(c, ast.Call) and isinstance(c.func, ast.Attribute) and c.func.attr == "split" and c.args and isinstance(c.args[0], ast.Constant) and c.args[0].value == ":":
                         n6 += 1
                         maxsplit = len(c.args) > 1 or any(k.arg == "maxsplit" for k in c.keywords)
+                        if not maxsplit and any(isinstance(j, ast.Call) and isinstance(j.func, ast.Attribute) and j.func.attr == "join" and isinstance(j.func.value, ast.Constant)
+                                                and j.func.value.value == ":" for sc_ in _option_scopes(pkg, ih, opt6)[0] for j in ast.walk(sc_)):
+                            # the pieces are put together again with ':' somewhere in the parser: whether the tail survives is not read here
+                            ctx.unrec("R6", f"--{opt6}: split(':')", (INIT, n.lineno), f"`{ast.unparse(c)[:60]}` cuts at every ':' and the parser re-joins pieces with ':' -- not decided here")
+                            continue
                         ctx.check(maxsplit, "R6", f"--{opt6}: split(':')", (INIT, n.lineno),
                                   "the expression after the first ':' is kept whole (maxsplit)" if maxsplit else
                                   "the option value is cut at every ':' and the pieces are read by index [0], [1]: an expression containing ':' (a C conditional) is silently truncated",
@@ -860,6 +1212,23 @@ def _r4_r6_r7(ctx, pkg):
         ctx.check(okk, "R6", "--ode-modifier: key/value unpacking", (INIT, unp[0].lineno),
                   "`key, value = om.split(':')` raises on a surplus ':' instead of dropping text", found="; ".join(ast.unparse(n)[:60] for n in unp))
     ctx.floor("R6", "free-text splits", n6, 1, (INIT, ih.lineno))
+    # R7 the dependency list of an ODE-modifier term is a multiset (`[C C]` is second order in C): nothing that takes the option text
+    # apart -- in handle() or in a helper it hands the text to -- identifies equal names (set / dict.fromkeys / a dict or set keyed by them)
+    dd = []
+    for sc in _option_scopes(pkg, ih, "ode-modifier")[0]:
+        for c in ast.walk(sc):
+            if isinstance(c, ast.Call):
+                f = ast.unparse(c.func)
+                if f in ("set", "frozenset") and c.args or f.endswith("fromkeys"):
+                    dd.append((c.lineno, ast.unparse(c)[:80]))
+            elif isinstance(c, ast.SetComp):
+                dd.append((c.lineno, ast.unparse(c)[:80]))
+    for ln, src in dd:
+        ctx.bad("R7", f"--ode-modifier: dependency list keeps repeats:{norm_text(src)[:40]}", (INIT, ln),
+                f"the species list of an --ode-modifier term goes through `{src}`, which identifies equal names: a term that is second order in one species "
+                "(`[C C]`) is written to naunet_config.toml -- and rendered -- as first order", expected="a list with one entry per occurrence", found=src)
+    if not dd:
+        ctx.ok("R7", "--ode-modifier: dependency list keeps repeats", (INIT, ih.lineno), "no set / dict.fromkeys between the option text and the dependency lists")
     # R7 fresh lists per ODE-modifier entry
     loops = _option_loops(ih, org, "ode-modifier")
     D = _alias_closure(ih, next((k.value.id for c in ast.walk(ih) if isinstance(c, ast.Call) for k in c.keywords if k.arg == "ode_modifier" and isinstance(k.value, ast.Name)), "ode_modifier"))
@@ -1013,47 +1382,119 @@ def _r5_example(ctx, pkg, table, allm):
 
 
 def _r8(ctx, pkg):
-    rh = pkg.method("RenderCommand", "handle")
-    installs = {}
-    first_species = None
-    for n in ast.walk(rh):
-        if isinstance(n, ast.Assign) and ast.unparse(n.targets[0]) == "Species._replacement":
-            installs["Species._replacement"] = n.lineno
-        if isinstance(n, ast.Call):
-            f = ast.unparse(n.func)
-            if f in ("Species.set_known_elements", "Species.set_known_pseudoelements"):
-                installs[f] = n.lineno
-            if f == "Species" and (first_species is None or n.lineno < first_species):
-                first_species = n.lineno
+    rh = _render_handle(pkg)
+    # events in execution order: the statements of handle() as they run (bodies of nested defs / lambdas run when called: a call of a
+    # local def that builds a Species counts as a construction at the call)
+    builders = {d.name for d in ast.walk(rh) if isinstance(d, (ast.FunctionDef, ast.AsyncFunctionDef)) and d is not rh
+                and any(isinstance(c, ast.Call) and ast.unparse(c.func) == "Species" for c in ast.walk(d))}
+    events = []
+
+    def scan(node):
+        for ch in ast.iter_child_nodes(node):
+            if isinstance(ch, (ast.FunctionDef, ast.AsyncFunctionDef, ast.Lambda, ast.ClassDef)):
+                continue
+            scan(ch)
+            if isinstance(ch, ast.Assign) and ast.unparse(ch.targets[0]) == "Species._replacement":
+                events.append(("Species._replacement", ch))
+            if isinstance(ch, ast.Call):
+                f = ast.unparse(ch.func)
+                if f in ("Species.set_known_elements", "Species.set_known_pseudoelements"):
+                    events.append((f, ch))
+                elif f == "Species" or f in builders:
+                    events.append(("Species(..)", ch))
+
+    def in_order(stmts):
+        for st in stmts:
+            if isinstance(st, (ast.FunctionDef, ast.AsyncFunctionDef, ast.ClassDef)):
+                continue
+            heads = [getattr(st, a) for a in ("value", "test", "iter") if isinstance(getattr(st, a, None), ast.AST)] + \
+                [i.context_expr for i in getattr(st, "items", [])] + (list(st.targets) if isinstance(st, ast.Assign) else [])
+            if isinstance(st, ast.Assign) and ast.unparse(st.targets[0]) == "Species._replacement":
+                for h_ in heads:
+                    scan_expr(h_)
+                events.append(("Species._replacement", st))
+            else:
+                for h_ in heads:
+                    scan_expr(h_)
+            for fld in ("body", "orelse", "finalbody"):
+                b = getattr(st, fld, None)
+                if isinstance(b, list) and b and isinstance(b[0], ast.stmt):
+                    in_order(b)
+            for hd in getattr(st, "handlers", []) or []:
+                in_order(hd.body)
+
+    def scan_expr(e):
+        for c in ast.walk(e):
+            if isinstance(c, (ast.Lambda,)):
+                continue
+            if isinstance(c, ast.Call):
+                f = ast.unparse(c.func)
+                if f in ("Species.set_known_elements", "Species.set_known_pseudoelements"):
+                    events.append((f, c))
+                elif f == "Species" or f in builders:
+                    events.append(("Species(..)", c))
+    in_order(rh.body)
+    first_species = next((i for i, (k, _) in enumerate(events) if k == "Species(..)"), None)
     for name in ("Species._replacement", "Species.set_known_elements", "Species.set_known_pseudoelements"):
-        line = installs.get(name)
-        ok = line is not None and (first_species is None or line < first_species)
-        ctx.check(ok, "R8", f"RenderCommand installs {name} first", (RENDER, line or rh.lineno),
+        pos = next((i for i, (k, _) in enumerate(events) if k == name), None)
+        if pos is None:
+            # not installed by a statement of handle() this rule reads (another spelling, a helper): R12 decides whether the value arrives
+            ctx.unrec("R8", f"RenderCommand installs {name} first", (RENDER, rh.lineno), f"no statement of RenderCommand.handle was recognised as the installation of {name}")
+            continue
+        ok = first_species is None or pos < first_species
+        line = events[pos][1].lineno
+        ctx.check(ok, "R8", f"RenderCommand installs {name} first", (RENDER, line),
                   f"{name} is installed before any Species is constructed" if ok else
-                  f"{name} is installed at line {line} but a Species(..) is constructed at line {first_species}: names in the binding-energy / yield tables are parsed with the "
-                  "previous tables and configured values silently fall back to the built-in ones",
+                  f"{name} is installed at line {line} but a Species(..) is constructed at line {events[first_species][1].lineno}, earlier in the run: names in the binding-energy / yield tables "
+                  "are parsed with the previous tables and configured values silently fall back to the built-in ones",
                   expected="installation before the first Species(..)")
     # the values installed are the ones read from the file
     _, _, var = _alias_paths(rh, {_toml_root(rh): ""}, derive=True)
     inst = {}
     for n in ast.walk(rh):
-        if isinstance(n, ast.Assign) and ast.unparse(n.targets[0]) == "Species._replacement" and isinstance(n.value, ast.Name):
-            inst["replacement"] = var.get(n.value.id)
-        if isinstance(n, ast.Call) and ast.unparse(n.func) in ("Species.set_known_elements", "Species.set_known_pseudoelements") and n.args and isinstance(n.args[0], ast.Name):
-            inst["elements" if n.func.attr == "set_known_elements" else "pseudo_elements"] = var.get(n.args[0].id)
-    ctx.check(inst == {k: f"chemistry.element.{k}" for k in ("replacement", "elements", "pseudo_elements")},
-              "R8", "RenderCommand installs the configured tables", (RENDER, rh.lineno), "the installed tables are chemistry.element.{replacement, elements, pseudo_elements} of the file", found=str(inst))
+        if isinstance(n, ast.Assign) and ast.unparse(n.targets[0]) == "Species._replacement":
+            inst["replacement"] = var.get(n.value.id) if isinstance(n.value, ast.Name) else None
+        if isinstance(n, ast.Call) and ast.unparse(n.func) in ("Species.set_known_elements", "Species.set_known_pseudoelements") and n.args:
+            inst["elements" if n.func.attr == "set_known_elements" else "pseudo_elements"] = var.get(n.args[0].id) if isinstance(n.args[0], ast.Name) else None
+    want_inst = {k: f"chemistry.element.{k}" for k in ("replacement", "elements", "pseudo_elements")}
+    # understood and wrong: a table of ANOTHER configuration path is installed; a value whose origin is not followed is not read here
+    _three(ctx, inst == want_inst, all(v is not None for v in inst.values()) and len(inst) == 3, "R8", "RenderCommand installs the configured tables", (RENDER, rh.lineno),
+           "the installed tables are chemistry.element.{replacement, elements, pseudo_elements} of the file", found=str(inst))
     # Network(...) receives every setting read
     calls = [c for c in ast.walk(rh) if isinstance(c, ast.Call) and ast.unparse(c.func) == "Network"]
     if calls:
-        kw = {k.arg: (var.get(k.value.id) if isinstance(k.value, ast.Name) else None) for k in calls[0].keywords}
+        opaque = any(k.arg is None for k in calls[0].keywords) or bool(calls[0].args)
+        kw = {k.arg: (var.get(k.value.id) if isinstance(k.value, ast.Name) else _single_path(k.value, var)) for k in calls[0].keywords if k.arg}
         want = {"filelist": "chemistry.network.files", "fileformats": "chemistry.network.formats", "elements": "chemistry.element.elements", "pseudo_elements": "chemistry.element.pseudo_elements",
                 "allowed_species": "chemistry.species.allowed", "required_species": "chemistry.species.required", "grain_model": "chemistry.grain.model",
                 "heating": "chemistry.thermal.heating", "cooling": "chemistry.thermal.cooling", "shielding": "chemistry.shielding", "rate_modifier": "chemistry.rate_modifier",
                 "ode_modifier": "chemistry.ode_modifier"}
         for k, v in want.items():
-            ctx.check(kw.get(k) == v, "R8", f"Network({k}=)", (RENDER, calls[0].lineno), f"Network receives the configured `{v}` as `{k}`", expected=v, found=str(kw.get(k)))
-        ctx.check(any(k.arg == "species_kwargs" for k in calls[0].keywords), "R8", "Network(species_kwargs=)", (RENDER, calls[0].lineno), "Network receives the symbol keywords")
+            # understood and wrong: the keyword receives ANOTHER configured value, or is absent from a call written out in full; a value
+            # whose origin is not followed / arguments handed on with * or ** are not read here
+            sure = (k in kw and kw[k] is not None) or (k not in kw and not opaque)
+            _three(ctx, kw.get(k) == v, sure, "R8", f"Network({k}=)", (RENDER, calls[0].lineno), f"Network receives the configured `{v}` as `{k}`", expected=v, found=str(kw.get(k)))
+        if not any(k.arg == "species_kwargs" for k in calls[0].keywords) and opaque:
+            ctx.unrec("R8", "Network(species_kwargs=)", (RENDER, calls[0].lineno), "arguments are handed on with * / **")
+        else:
+            ctx.check(any(k.arg == "species_kwargs" for k in calls[0].keywords), "R8", "Network(species_kwargs=)", (RENDER, calls[0].lineno), "Network receives the symbol keywords")
+
+
+def _single_path(e, var):
+    """the one configuration path the locals of an expression stand for (a converted copy written in place: `{int(k): v for k, v in
+    rate_modifier.items()}`), else None"""
+    ps = {var[x.id] for x in ast.walk(e) if isinstance(x, ast.Name) and x.id in var and var[x.id]}
+    return next(iter(ps)) if len(ps) == 1 else None
+
+
+def _three(ctx, ok, sure, rule, key, where, msg, expected=None, found=None):
+    """DISCHARGED / VIOLATION only when the construct was understood (`sure`) / else UNRECOGNISED"""
+    if ok:
+        ctx.ok(rule, key, where, msg)
+    elif sure:
+        ctx.bad(rule, key, where, msg, expected, found)
+    else:
+        ctx.unrec(rule, key, where, f"not read completely ({msg[:80]}): {str(found)[:120]}")
 
 
 MUTANTS = [
@@ -1090,8 +1531,34 @@ MUTANTS = [
     {"name": "example-device-from-substring-sparse", "file": EXAMPLE, "old": '"gpu" if "cusparse" in case', "new": '"gpu" if "sparse" in case', "rules": ["R5"]},
     {"name": "example-case-table-unknown-method", "edits": [{"file": EXAMPLE, "old": '    def __init__(self):\n        super(ExampleCommand, self).__init__()\n', "new": '    _ALL = ("dense", "sparse", "cusparse", "rosenbrock4")\n    _CASES = (\n        ("empty", _ALL),\n        ("minimal", _ALL),\n        ("primordial", _ALL),\n        ("deuterium", _ALL),\n        ("cloud", ("dense", "sparse", "rosenbrock4")),\n        ("ism", ("dense", "sparse", "cusparse", "bdf")),\n    )\n\n    def __init__(self):\n        super(ExampleCommand, self).__init__()\n'}, {"file": EXAMPLE, "old": '        networklist = [\n            "empty/dense",\n            "empty/sparse",\n            "empty/cusparse",\n            "empty/rosenbrock4",\n            "minimal/dense",\n            "minimal/sparse",\n            "minimal/cusparse",\n            "minimal/rosenbrock4",\n            "primordial/dense",\n            "primordial/sparse",\n            "primordial/cusparse",\n            "primordial/rosenbrock4",\n            "deuterium/dense",\n            "deuterium/sparse",\n            "deuterium/cusparse",\n            "deuterium/rosenbrock4",\n            "cloud/dense",\n            "cloud/sparse",\n            "cloud/rosenbrock4",\n            "ism/dense",\n            "ism/sparse",\n            "ism/cusparse",\n        ]\n', "new": '        networklist = [\n            "/".join((ex_, how_))\n            for ex_, hows_ in self._CASES\n            for how_ in hows_\n        ]\n'}], "rules": ["R5"]},
     {"name": "writer-update-forgets-method", "file": CONF, "old": '        odesolver = content["ODEsolver"]\n        odesolver["solver"] = self._solver\n        odesolver["device"] = self._device\n        odesolver["method"] = self._method\n', "new": '        content["ODEsolver"].update({"solver": self._solver, "device": self._device})\n', "rules": ["R1"]},
+    # hardening wave 3
+    {"name": "solver-table-comprehension-wrong-key", "file": CONF, "old": '        odesolver["solver"] = self._solver\n        odesolver["device"] = self._device\n', "new": '        chosen = {"solver": self._solver, "device": self._device}\n        entries = {f"ode_{k}": v for k, v in chosen.items()}\n        for key, val in entries.items():\n            odesolver[key] = val\n', "rules": ["R1"]},
+    {"name": "input-stage-filters-required-species", "file": CONF, "old": "        self._extraspecies = required_species.copy() if required_species else []\n", "new": "        self._extraspecies = [s for s in (required_species or []) if s not in self._allowedspecies]\n", "rules": ["R13"]},
+    {"name": "input-stage-dedups-formats", "file": CONF, "old": "        self._formats = formats.copy() if formats else []\n", "new": "        self._formats = list(dict.fromkeys(formats)) if formats else []\n", "rules": ["R13"]},
+    {"name": "ode-modifier-dependencies-deduplicated", "file": INIT, "old": '                rdep = rdep.replace("[", "").replace("]", "").strip().split()\n', "new": '                rdep = list(dict.fromkeys(rdep.replace("[", "").replace("]", "").strip().split()))\n', "rules": ["R7"]},
+    {"name": "ode-modifier-parser-helper-dedups", "edits": [
+        {"file": INIT, "old": '                rdep = rdep.replace("[", "").replace("]", "").strip().split()\n', "new": '                rdep = self._names(rdep)\n'},
+        {"file": INIT, "old": "    def option(self, key=None):\n", "new": "    @staticmethod\n    def _names(text):\n        return sorted(set(text.replace(\"[\", \"\").replace(\"]\", \"\").split()))\n\n    def option(self, key=None):\n"}], "rules": ["R7"]},
+    {"name": "rate-modifier-helper-splits-at-equals", "edits": [
+        {"file": INIT, "old": '        rate_modifier = [rm.split(":", 1) for rm in rate_modifier]\n', "new": '        rate_modifier = [self._pair(rm) for rm in rate_modifier]\n'},
+        {"file": INIT, "old": "    def option(self, key=None):\n", "new": "    @staticmethod\n    def _pair(text):\n        return text.split(\"=\", 1)\n\n    def option(self, key=None):\n"}], "rules": ["R4"]},
+    {"name": "render-network-kwargs-table-swapped", "file": RENDER, "old": "        net = Network(\n            filelist=files,\n            fileformats=formats,\n            elements=element,\n            pseudo_elements=pseudo_element,\n            allowed_species=allowed_species,\n            required_species=extra_species,\n            species_kwargs=species_kwargs,\n            grain_model=grain_model,\n            heating=heating,\n            cooling=cooling,\n            shielding=shielding,\n            rate_modifier=rate_modifier,\n            ode_modifier=ode_modifier,\n        )\n",
+     "new": "        opts = {\"filelist\": files, \"fileformats\": formats, \"elements\": element, \"pseudo_elements\": pseudo_element, \"allowed_species\": extra_species, \"required_species\": allowed_species, \"species_kwargs\": species_kwargs, \"grain_model\": grain_model, \"heating\": heating, \"cooling\": cooling, \"shielding\": shielding, \"rate_modifier\": rate_modifier, \"ode_modifier\": ode_modifier}\n        net = Network(**opts)\n", "rules": ["R8", "R12"]},
 ]
 BENIGN = [
+    # hardening wave 3
+    {"name": "input-stage-list-or-empty", "file": CONF, "old": "        self._extraspecies = required_species.copy() if required_species else []\n", "new": "        self._extraspecies = list(required_species or [])\n"},
+    {"name": "render-network-kwargs-table", "file": RENDER, "old": "        net = Network(\n            filelist=files,\n            fileformats=formats,\n            elements=element,\n            pseudo_elements=pseudo_element,\n            allowed_species=allowed_species,\n            required_species=extra_species,\n            species_kwargs=species_kwargs,\n            grain_model=grain_model,\n            heating=heating,\n            cooling=cooling,\n            shielding=shielding,\n            rate_modifier=rate_modifier,\n            ode_modifier=ode_modifier,\n        )\n",
+     "new": "        opts = {\"filelist\": files, \"fileformats\": formats, \"elements\": element, \"pseudo_elements\": pseudo_element, \"allowed_species\": allowed_species, \"required_species\": extra_species, \"species_kwargs\": species_kwargs, \"grain_model\": grain_model, \"heating\": heating, \"cooling\": cooling, \"shielding\": shielding, \"rate_modifier\": rate_modifier, \"ode_modifier\": ode_modifier}\n        net = Network(**opts)\n"},
+    {"name": "rate-modifier-pair-helper", "edits": [
+        {"file": INIT, "old": '        rate_modifier = [rm.split(":", 1) for rm in rate_modifier]\n', "new": '        rate_modifier = [self._pair(rm) for rm in rate_modifier]\n'},
+        {"file": INIT, "old": "    def option(self, key=None):\n", "new": "    @staticmethod\n    def _pair(text):\n        return text.split(\":\", 1)\n\n    def option(self, key=None):\n"}]},
+    {"name": "example-pairs-through-starmap", "edits": [
+        {"file": EXAMPLE, "old": "import shutil\n", "new": "import shutil\nfrom itertools import starmap\n"},
+        {"file": EXAMPLE, "old": 'bindingstr = ",".join(f"{s}={sv}" for s, sv in binding.items())', "new": 'bindingstr = ",".join(starmap("{}={}".format, binding.items()))'}]},
+    {"name": "summary-from-comprehension-over-table", "file": CONF, "old": '        summary["list_of_elements"] = self._network_elements\n        summary["list_of_species"] = self._network_species\n',
+     "new": '        named = {"elements": self._network_elements, "species": self._network_species}\n        entries = {f"list_of_{grp}": names for grp, names in named.items()}\n        for key, names in entries.items():\n            summary[key] = names\n'},
+    {"name": "summary-from-literal-table", "file": CONF, "old": '        summary["list_of_elements"] = self._network_elements\n        summary["list_of_species"] = self._network_species\n', "new": '        for grp, names in {"elements": self._network_elements, "species": self._network_species}.items():\n            summary[f"list_of_{grp}"] = names\n'},
     # hardening round 4
     {"name": "writer-fills-through-helper", "edits": [
         {"file": CONF, "old": "    @property\n    def content(self) -> str:\n", "new": "    def _fill_solver(self, table) -> None:\n        table[\"solver\"] = self._solver\n        table[\"device\"] = self._device\n        table[\"method\"] = self._method\n\n    @property\n    def content(self) -> str:\n"},
